@@ -348,8 +348,11 @@ class Parser:
                     if n < len(mac.defaults):
                         # NB: do not use positions from macro definition
                         arg = [copy.copy(t) for t in mac.defaults[n]]
+                        # (the next token may be outside of the macro call)
+                        last = next((a[-1].pos for a in reversed(arguments)
+                                        if a), start)
                         for t in arg:
-                            t.pos = pos
+                            t.pos = last
                             t.pos_fix = True
             elif code == 'A':
                 if tok and tok.txt == '}':
